@@ -547,11 +547,19 @@ func c13Sweeps(e *Env) {
 		}
 		ok := false
 		if exp != nil {
-			for _, c := range core.CallsNamed(f, "pkg/sync.Map.Delete") {
-				if core.OnlyViaEdge(exp, true, c.(ssa.Instruction)) {
-					ok = true
-				}
-			}
+			// on the expired edge every path deletes the entry before returning
+			guard := exp
+			q := &core.PathQuery{Fn: f, From: guard, Target: core.IsReturn,
+				Stop: func(in ssa.Instruction) bool {
+					c, isC := in.(*ssa.Call)
+					if !isC {
+						return false
+					}
+					n := core.CalleeName(c)
+					return (n == "pkg/sync.Map.Delete" || n == "pkg/sync.Map.LoadAndDelete") && strings.HasSuffix(tableOf(c), ".midHandlerContainer")
+				},
+				EdgeOK: func(x *ssa.If, br bool) bool { return x != guard || br }}
+			ok = q.Find() == nil
 		}
 		e.R.Check(ok, rule, "udp/client.Conn.checkMidHandlerContainer:expired-deleted", e.fpos(f), "an expired pending entry is deleted from the table on the IsExpired edge", "an expired pending confirmable is not deleted")
 	}
